@@ -389,6 +389,29 @@ def run_case(case: dict[str, Any]) -> Outcome:
             )
             break
 
+    # O3b bytes pulled by one fetch attempt in total: the distinct parts of the object that were read (a hedged or
+    # repeated chunk counts once) stay within max_fetch_bytes plus one chunk — whatever size the probe announced
+    attempts = sum(1 for r in log if r.get("kind") in ("head", "probe") and r.get("hop") == 0)
+    if attempts <= 1:
+        per_chunk: dict[Any, int] = {}
+        whole = 0
+        for r in log:
+            resp = r.get("resp")
+            if resp is None:
+                continue
+            if r.get("kind") == "chunk":
+                per_chunk[r.get("idx")] = max(per_chunk.get(r.get("idx"), 0), int(resp.pulled))
+            else:
+                whole += int(resp.pulled)
+        total = whole + sum(per_chunk.values())
+        bound = max_fetch + int(config.chunk_size_bytes) + 65536
+        if total > bound:
+            out.fail(
+                f"fetch_total_unbounded/{probe}/{path}",
+                f"one fetch attempt read {total} distinct bytes ({len(per_chunk)} chunks + {whole} from probe/GET bodies) with "
+                f"max_fetch_bytes={max_fetch}, chunk={config.chunk_size_bytes}: more than max_fetch_bytes plus a chunk",
+            )
+
     # O4 result
     ce_seen = any(
         r.get("resp") is not None and 200 <= r["resp"].status < 300 and r["resp"].headers.get("Content-Encoding")
@@ -784,6 +807,31 @@ resolve_cases = st.fixed_dictionaries(
 )
 
 
+# an honest (or nearly honest) origin whose object is several times larger than max_fetch_bytes: whichever probe learns
+# the size, the object must be refused before it is downloaded, on the HEAD path and on the pre-signed range-probe path
+oversize_cases = st.fixed_dictionaries(
+    {
+        "url": _good_url,
+        "obj": st.fixed_dictionaries({"size": st.sampled_from([150000, 300000, 400000]), "kind": st.sampled_from(["sha", "text"]), "seed": st.integers(0, 3),
+                                      "ce": st.sampled_from(["none", "none", "gzip"])}),
+        "cfg": st.fixed_dictionaries(
+            {
+                "max_fetch": st.sampled_from([10, 1000, 5000, 20000, 50000]),
+                "max_decomp": st.none(),
+                "chunk": st.sampled_from([1000, 4096, 16384, 65536]),
+                "threshold": st.sampled_from([0, 0, 1, 100000, 1 << 30]),
+                "max_redirects": st.just(3),
+                "par": st.integers(1, 4),
+                "hedge_mult": st.sampled_from([0.0, 2.0]),
+                "max_hedges": st.sampled_from([0, 1]),
+            }
+        ),
+        "validator": _validator,
+        "script": _scripts(0, 1, _benign_fault, bad_redirects=False),
+    }
+)
+
+
 def _retry_script(errs: list[str], n: int, rkinds: list[str], rspec: dict[str, Any], extra: list[Any], piece: int) -> dict[str, Any]:
     faults = [(("head", "transient"), [errs[0], n]), (("probe", "transient"), [errs[1], n]), (("get", "transient"), [errs[2], n]), *extra]
     return _build_script(faults, 0, 5000, piece, 0.01, (rkinds, rspec))
@@ -848,6 +896,7 @@ def _resolve_grid() -> list[dict[str, Any]]:
 def main(chk: Check) -> None:
     chk.explore("faults", cases, run_case, quick=900, thorough=16000)
     chk.explore("honest", honest_cases, run_case, quick=300, thorough=5000)
+    chk.explore("oversize", oversize_cases, run_case, quick=150, thorough=2500)
     chk.explore("parallel", parallel_cases, run_case, quick=550, thorough=9000)
     chk.explore("resolve", resolve_cases, run_case, quick=250, thorough=5000)
     chk.explore("retry", retry_cases, run_case, quick=250, thorough=5000)
